@@ -18,7 +18,8 @@ RULE = ("cases = pools of generated specs, their independent rebuilds and every 
         ">=1 constraint or nesting.")
 ASSUMPTIONS = ["NaN-valued schemas excluded (== cannot be reflexive for nan)",
                "inequality is demanded only when a distinguishing witness exists"]
-TIERS = {"quick": dict(shards=16, cases=2500), "thorough": dict(shards=16, cases=40000)}
+REACH_FILES = ['d42/declaration/_props.py', 'd42/validation/__init__.py', 'd42/declaration/types/_optional.py']
+TIERS = {"quick": dict(shards=16, cases=6000), "thorough": dict(shards=16, cases=40000)}
 
 PROF = Profile(max_depth=3, p_unsat=0.02, nonfinite=False, p_value=0.35)
 LEAF = Profile(max_depth=0)
